@@ -345,8 +345,31 @@ func (p *c12Prop) Run(ci interface{}) interface{} {
 			}
 			return n >= 2
 		})
+		// a response that would exceed the limit: SUBACK carries one code per filter
+		nf := c.Max
+		fs := make([]string, nf)
+		for k := range fs {
+			fs[k] = fmt.Sprintf("o2/%d", k)
+		}
+		_ = s.SendL(mkSubscribe(mqttp.ProtocolV50, 2, fs, make([]byte, nf)))
+		npr := s.CountOthers(mqttp.PINGRESP)
+		_ = s.SendL(mqttp.NewPingReq(mqttp.ProtocolV50))
+		s.WaitFor(5*time.Second, func() bool {
+			n := 0
+			for _, o := range s.Others {
+				if o.Type() == mqttp.PINGRESP {
+					n++
+				}
+			}
+			return n > npr
+		})
 		s.mu.Lock()
 		got := 0
+		for _, o := range s.Others {
+			if sz, err := o.Size(); err == nil && sz > obs.Largest {
+				obs.Largest = sz
+			}
+		}
 		for _, m := range s.Pubs {
 			if sz, err := m.Size(); err == nil && sz > obs.Largest {
 				obs.Largest = sz
